@@ -60,4 +60,24 @@ CHECKS = {
     text=("EventMap histories (repeats, freeze, wrong types) against an insertion-ordered list; Monitor with up to 10 sources of mixed trigger modes added in shuffled "
           "order with repeats, arbitrary inputs/enable/clear every cycle, trg/pending/src.i compared each cycle (trigger beats clear; bit k <-> index k)."),
     note="Trusts the simulator; pending read from Monitor.pending."),
+ "C03": dict(
+    design_ref="DESIGN.md section 4, C03",
+    technique="property-based testing over generated map trees; oracle = plain address arithmetic on values returned at construction; exhaustive decode of every root address per tree",
+    text=("Generated trees of memory maps (depth <= 4; ratio-1/sparse windows anywhere, dense 2/4/8 over leaf maps; named/anonymous; implicit/aligned/explicit) are "
+          "built and all_resources(), find_resource() (every resource and never-added objects) and decode_address() for every root address are compared with "
+          "range/width/path arithmetic that shares no code with memory.py."),
+    note="Dense-over-non-leaf and dense-then-sparse stacks are outside the stated domain and never generated."),
+ "C17": dict(
+    design_ref="DESIGN.md section 4, C17",
+    technique="model-based property testing of Builder call histories (nested scopes, error paths) against independent placement arithmetic",
+    text=("Generated builder geometries and add/Cluster/Index/freeze/as_memory_map histories with valid and invalid arguments (failures caught inside or outside the "
+          "with-block) are replayed on the real Builder; as_memory_map() must raise iff the model finds overlap/name conflict/overflow, else resources() must equal "
+          "the model layout (twice)."),
+    note="Zero-width registers occupy one address. Trusts the placement model in vlib/props/C17.py."),
+ "C18": dict(
+    design_ref="DESIGN.md section 4, C18",
+    technique="model-based property testing of naming histories on a pool of maps against a prefix-conflict namespace model (both directions)",
+    text=("Histories of add_resource/add_window(named/anonymous) with prefix-rich names (strings and integers) on map trees where address space can never be the "
+          "reason for refusal; acceptance must equal the model's verdict in both directions, refusals must change nothing, final paths pairwise distinct."),
+    note="Non-name refusal causes are excluded by construction or tracked (frozen parent, duplicate window)."),
 }
